@@ -1844,8 +1844,9 @@ def run_c03(ctx):
     run_c03_tail(ctx, f)
 
 
-def graph_dod_clause(ctx, RID):
-    """dod and L of the whole graph as from_graph computes them (restated where a property's formula consumes them)."""
+def graph_dod_clause(ctx, RID, topology=False):
+    """dod and L of the whole graph as from_graph computes them (restated where a property's formula consumes them); with `topology`
+    also that the stored edges, mass count and externals are the caller's, edge by edge in the caller's order."""
     f = ctx.facts
     bs, fg, tb, jrec = builder_roles(ctx)
     seen = {}
@@ -1860,6 +1861,17 @@ def graph_dod_clause(ctx, RID):
     compare(ctx, RID, "dod == Σ_e w_e − L·D/2", scalar_of(res.fields["dod"], "dod"), want, fg.path, "dod-formula", {}, ())
     ctx.ob(RID, "num_loops is the loop-number routine's value on all edges (sum over connected components)",
            scalar_of(res.fields["num_loops"], "num_loops") == Expr.symbol("L") and seen.get("loops", [None])[0] == "E", fg.path, "num-loops")
+    if topology:
+        te = res.fields["topology"].at("e")
+        ok = (isinstance(te, Struct) and scalar_of(te.fields["weight"], "weight") == leaf("w", "e") and scalar_of(te.fields["left"], "left") == leaf("vl", "e")
+              and scalar_of(te.fields["right"], "right") == leaf("vr", "e") and isinstance(te.fields["is_massive"], Cond)
+              and te.fields["is_massive"].key() == "massive[«e»]" and scalar_of(te.fields["edge_id"], "edge_id") == leaf("$ix", "e"))
+        ctx.ob(RID, "topology[e] = (id e, left, right, weight, is_massive) of the caller's edge e, in the caller's order", ok, fg.path, "edge-field-copy")
+        nm = scalar_of(res.fields["num_massive_edges"], "num_massive_edges")
+        ctx.ob(RID, "num_massive_edges counts the massive edges", nm == Expr.atom(("call", "count", "{§∈E | massive[«§»]}")), fg.path, "num-massive",
+               detail="num_massive_edges = %s" % nm.key())
+        ev = res.fields["external_vertices"]
+        ctx.ob(RID, "external_vertices is the input's externals", isinstance(ev, Opaque) and ev.name == "externals", fg.path, "externals-copy")
 
 
 def normalisation_clause(ctx, RID):
@@ -2258,7 +2270,7 @@ def run_c04(ctx):
                tb.path, "last-is-full", detail="table length class %s, expected %s" % (getattr(tbl, "classes", None), size))
     guarded_clause(ctx, "C04-b", tb.path, "cached-factor", b)
     ctx.rule("C04-c", "the dod and L that enter the normalisation are the graph's: dod = Σ_e w_e − L·D/2, L = loop number of all edges (restated from C03-a)")
-    restated_clause(ctx, "C04-c", fg.path, "graph-dod", lambda: graph_dod_clause(ctx, "C04-c"))
+    restated_clause(ctx, "C04-c", fg.path, "graph-dod", lambda: graph_dod_clause(ctx, "C04-c", topology=True))
 
 
 # ---------------------------------------------------------------------------------------------------
